@@ -178,6 +178,14 @@ func runC02(st *ev.Stats, p PxProgram) string {
 			m.hasDel[d.Hex()+"|"+val] = true
 			m.touched[d.Hex()] = append(m.touched[d.Hex()], op+":debit")
 			m.effects = append(m.effects, pxEffect{Method: op, Effect: "debit", Account: d, Caller: self, Deleg: d})
+		case "createValidator":
+			// the self-delegation of a new (unbonded) validator goes to the not-bonded pool
+			m.add(d, new(big.Int).Neg(amt))
+			m.add(notBonded, amt)
+			m.touched[d.Hex()] = append(m.touched[d.Hex()], op+":debit")
+			m.effects = append(m.effects, pxEffect{Method: op, Effect: "debit", Account: d, Caller: self, Deleg: d})
+		case "approve":
+			// no coins move
 		case "undelegate":
 			m.payout(d, val, op)
 			m.add(bonded, new(big.Int).Neg(amt))
